@@ -308,6 +308,20 @@ fn bounded_overlapping_readers_stream_whole_blob() {
     assert!(first_c == content, "reader C must stream exactly the content");
     assert_eq!(cas.get_size(&1).unwrap(), Some(content.len() as u64));
     assert_eq!(&cas.get(&2).unwrap().unwrap()[..], b"another blob");
+    // the reader is a BufReader: consumers of the BufRead interface must see all L bytes too (small and page-sized blobs)
+    use std::io::BufRead;
+    for (i, len) in [0usize, 1, 2, 17, 40, 511, 512, 4095, 4096, 4097, 8191, 8192, 8193].iter().enumerate() {
+        let k = 10 + i as u8;
+        let body: Vec<u8> = (0..*len).map(|j| if j % 7 == 6 { b'\n' } else { b'a' + (j % 23) as u8 }).collect();
+        put(&cas, k, &body);
+        let mut r = cas.get_reader(&k).unwrap().unwrap();
+        let mut via_fill = Vec::new();
+        loop { let buf = r.fill_buf().unwrap(); if buf.is_empty() { break; } let n = buf.len(); via_fill.extend_from_slice(buf); r.consume(n); }
+        assert!(via_fill == body, "get_reader of a {len}-byte blob: fill_buf/consume yielded {} bytes", via_fill.len());
+        let lines: Vec<Vec<u8>> = cas.get_reader(&k).unwrap().unwrap().split(b'\n').map(|l| l.unwrap()).collect();
+        let want: Vec<Vec<u8>> = if body.is_empty() { vec![] } else { let mut w: Vec<Vec<u8>> = body.split(|b| *b == b'\n').map(|l| l.to_vec()).collect(); if body.ends_with(b"\n") { w.pop(); } w };
+        assert!(lines == want, "get_reader of a {len}-byte blob: split() lost content");
+    }
 }
 
 /// bound: 3 scenarios - an abandoned transaction with written bytes before a put; two transactions written interleaved;
@@ -388,4 +402,343 @@ fn bounded_dirlock_held_through_operations() {
     let again = crate::Cas::<u8>::open(dir.path(), cfg());
     assert!(again.is_ok(), "once every handle is gone the directory can be opened again");
     assert_eq!(crate::paths::DbPaths::new(dir.path().to_path_buf()).lockfile_path(), dir.path().join("LOCK"), "documented layout: <db_root>/LOCK");
+}
+
+/// bound: exhaustive for u8/i8/u16/i16; 20,000 pseudo-random + boundary values for the wider integer types and [u8; N]
+/// (the Kani harnesses of the thorough tier prove these for the full domain)
+#[test]
+fn bounded_key_bytes_integers() {
+    fn one<K: KeyBytes + PartialEq + std::fmt::Debug + Clone>(k: K, len: usize) {
+        let owned = k.to_key_bytes_owned();
+        assert_eq!(owned.len(), len, "encoded length of {k:?}");
+        assert_eq!(k.to_key_bytes().as_ref() as &[u8], &owned[..], "borrowed and owned encodings of {k:?} differ");
+        assert_eq!(K::from_key_bytes(&owned), Some(k.clone()), "decode(encode({k:?}))");
+        let mut longer = owned.clone(); longer.push(0);
+        assert_eq!(K::from_key_bytes(&longer), None, "a longer byte string must not decode for a fixed-size key");
+        if len > 0 { assert_eq!(K::from_key_bytes(&owned[..len - 1]), None, "a shorter byte string must not decode"); }
+    }
+    for v in 0..=u8::MAX { one(v, 1); one(v as i8, 1); }
+    for v in 0..=u16::MAX { one(v, 2); one(v as i16, 2); }
+    let mut x = 0x243F_6A88_85A3_08D3u64;
+    let mut next = || { x ^= x << 13; x ^= x >> 7; x ^= x << 17; x };
+    for i in 0..20_000u32 {
+        let a = next(); let b = next();
+        let w = ((a as u128) << 64) | b as u128;
+        let (v32, v64, v128) = match i { 0 => (0, 0, 0), 1 => (u32::MAX, u64::MAX, u128::MAX), 2 => (1 << 31, 1 << 63, 1 << 127), 3 => (255, 255, 255), 4 => (256, 256, 256), _ => (a as u32, a, w) };
+        one(v32, 4); one(v32 as i32, 4); one(v64, 8); one(v64 as i64, 8); one(v128, 16); one(v128 as i128, 16);
+        let mut arr16 = [0u8; 16]; arr16.copy_from_slice(&w.to_le_bytes()); one(arr16, 16);
+        let mut arr32 = [0u8; 32]; arr32[..16].copy_from_slice(&w.to_be_bytes()); arr32[16..].copy_from_slice(&w.to_le_bytes()); one(arr32, 32);
+    }
+    one([0u8; 0], 0); one([7u8; 1], 1);
+    // distinct keys have distinct encodings (injectivity on a sample): sort by encoding and compare neighbours
+    let mut encs: Vec<(Vec<u8>, u64)> = (0..5000).map(|_| { let v = next() % 100_000; (v.to_key_bytes_owned(), v) }).collect();
+    encs.sort();
+    for w in encs.windows(2) { if w[0].0 == w[1].0 { assert_eq!(w[0].1, w[1].1, "two different u64 keys share an encoding"); } }
+}
+
+/// bound: one store with a stray unix socket, a stray symlink to a directory at blob level and a regular stray file
+#[test]
+fn bounded_cleanup_removes_non_regular_strays() {
+    use std::os::unix::net::UnixListener;
+    let dir = tempfile::tempdir().unwrap();
+    let elsewhere = tempfile::tempdir().unwrap();
+    let shard_dir = {
+        let cas: crate::Cas<String> = crate::Cas::open(dir.path(), cfg()).unwrap();
+        put(&cas, "live".to_string(), b"live data");
+        let hash = cas.read_index_state().get_item(&"live".to_string()).unwrap().blob_hash;
+        dir.path().join("cas").join(hash.relative_path()).parent().unwrap().to_path_buf()
+    };
+    let socket_path = shard_dir.join("agent.sock");
+    drop(UnixListener::bind(&socket_path).unwrap());
+    let link_path = shard_dir.join("backup");
+    std::os::unix::fs::symlink(elsewhere.path(), &link_path).unwrap();
+    let regular_path = dir.path().join("cas").join("notes.txt");
+    std::fs::write(&regular_path, b"stray").unwrap();
+    let c2 = Config { scan_orphans_on_startup: true, ..Config::default() };
+    {
+        let (cas, stats) = crate::Cas::<String>::open_with_recover(dir.path(), c2.clone()).unwrap();
+        let stats = stats.unwrap();
+        let mut reported = stats.invalid_files.clone(); reported.sort();
+        let mut expected = vec![socket_path.clone(), link_path.clone(), regular_path.clone()]; expected.sort();
+        assert_eq!(reported, expected, "the scan reports every stray entry as invalid");
+        let res = stats.delete_orphans().unwrap();
+        assert!(res.errors.is_empty(), "{:?}", res.errors);
+        for p in [&socket_path, &link_path, &regular_path] { assert!(std::fs::symlink_metadata(p).is_err(), "clean-up must remove the reported invalid entry {p:?}"); }
+        assert!(elsewhere.path().is_dir(), "the target of a stray symlink is not touched");
+        assert_eq!(&cas.get(&"live".to_string()).unwrap().unwrap()[..], b"live data");
+    }
+    let (_cas, stats) = crate::Cas::<String>::open_with_recover(dir.path(), c2).unwrap();
+    let stats = stats.unwrap();
+    assert!(stats.invalid_files.is_empty() && stats.orphaned_blobs.is_empty() && stats.missing_blobs.is_empty(), "a second scan after clean-up is clean");
+}
+
+/// bound: 2,060 keys with pairwise distinct contents (twice the size of any plausible batch), 12 blobs removed behind the store's back
+#[test]
+fn bounded_scan_exact_for_large_index() {
+    let dir = tempfile::tempdir().unwrap();
+    let n = 2060u32;
+    let mut hashes = Vec::new();
+    {
+        let cas: crate::Cas<u32> = crate::Cas::open(dir.path(), Config { scan_orphans_on_startup: false, sync_mode: crate::types::SyncMode::Async, ..Config::default() }).unwrap();
+        for k in 0..n { put(&cas, k, format!("unique content of key {k}").as_bytes()); }
+        cas.checkpoint().unwrap();
+        let st = cas.read_index_state();
+        for (k, it) in st.iter() { hashes.push((*k, it.blob_hash)); }
+    }
+    let c2 = Config { scan_orphans_on_startup: true, fail_on_integrity_errors: false, ..Config::default() };
+    {
+        let (_cas, stats) = crate::Cas::<u32>::open_with_recover(dir.path(), c2.clone()).unwrap();
+        let stats = stats.unwrap();
+        assert!(stats.orphaned_blobs.is_empty(), "referenced blobs reported as orphans: {:?}", stats.orphaned_blobs);
+        assert!(stats.missing_blobs.is_empty());
+        assert_eq!(stats.total_blobs, n as usize);
+    }
+    let victims: Vec<BlobHash> = [0usize, 1, 511, 512, 1023, 1024, 1025, 2047, 2048, 2049, 2058, 2059].iter().map(|i| hashes[*i].1).collect();
+    for h in &victims { std::fs::remove_file(dir.path().join("cas").join(h.relative_path())).unwrap(); }
+    let (_cas, stats) = crate::Cas::<u32>::open_with_recover(dir.path(), c2).unwrap();
+    let mut missing = stats.unwrap().missing_blobs.clone(); missing.sort();
+    let mut want = victims.clone(); want.sort();
+    assert_eq!(missing, want, "missing = exactly the referenced blobs whose files are gone");
+}
+
+/// bound: blobs whose hashes fall on neighbouring shard boundaries ((x,ff),(x+1,00)), (00,00), (ff,ff), and two in one shard
+#[test]
+fn bounded_cas_files_named_after_their_bytes_on_shard_boundaries() {
+    fn find(pred: impl Fn(&[u8; 32]) -> bool, salt: &str) -> Vec<u8> {
+        for i in 0u64.. { let c = format!("{salt}-{i}").into_bytes(); let h = crate::calculate_blob_hash(&c); if pred(&h.0) { return c; } }
+        unreachable!()
+    }
+    let dir = tempfile::tempdir().unwrap();
+    let cas: crate::Cas<u32> = crate::Cas::open(dir.path(), cfg()).unwrap();
+    let a = find(|h| h[1] == 0xff && h[0] < 0xff, "a");
+    let x = crate::calculate_blob_hash(&a).0[0];
+    let b = find(|h| h[0] == x + 1 && h[1] == 0x00, "b");
+    let c = find(|h| h[0] == x && h[1] == 0xfe, "c");
+    let d = find(|h| h[0] == x && h[1] == 0xff, "d2");
+    let contents = vec![a, b, c, d, b"plain".to_vec()];
+    for (i, c) in contents.iter().enumerate() { put(&cas, i as u32, c); }
+    for (i, c) in contents.iter().enumerate() { assert!(cas.get(&(i as u32)).unwrap().unwrap()[..] == c[..]); }
+    fn walk(p: &std::path::Path, root: &std::path::Path, n: &mut usize) {
+        for e in std::fs::read_dir(p).unwrap().flatten() {
+            let p = e.path();
+            if p.is_dir() { walk(&p, root, n); } else {
+                let bytes = std::fs::read(&p).unwrap();
+                let want = root.join(crate::calculate_blob_hash(&bytes).relative_path());
+                assert_eq!(p, want, "a file under cas/ must be named after the BLAKE3 of its bytes");
+                *n += 1;
+            }
+        }
+    }
+    let mut n = 0; let root = dir.path().join("cas");
+    walk(&root, &root, &mut n);
+    assert_eq!(n, contents.len(), "one file per distinct content");
+}
+
+// ---- single-fault containment (C14): one failing write(2), injected with RLIMIT_FSIZE in a child process (this test binary
+// re-executed; resource limits are per process). EFBIG is a clean failure: nothing is written. ----
+const FAULT_ENV: &str = "VERIF_BOUNDED_FAULT_CHILD";
+fn fault_cfg() -> Config { Config { num_ops_per_wal: NonZeroU64::new(1000).unwrap(), scan_orphans_on_startup: false, ..Config::default() } }
+fn set_fsize_soft_limit(limit: libc::rlim_t) -> libc::rlim_t {
+    let mut rl = libc::rlimit { rlim_cur: 0, rlim_max: 0 };
+    assert_eq!(unsafe { libc::getrlimit(libc::RLIMIT_FSIZE, &mut rl) }, 0);
+    let old = rl.rlim_cur; rl.rlim_cur = limit;
+    assert_eq!(unsafe { libc::setrlimit(libc::RLIMIT_FSIZE, &rl) }, 0);
+    old
+}
+fn sput(cas: &crate::Cas<String>, k: &str, v: &[u8]) -> Result<(), String> {
+    let mut tx = cas.put(k.to_string()).map_err(|e| format!("{e:?}"))?;
+    tx.write(v).map_err(|e| format!("{e:?}"))?;
+    tx.finish().map_err(|e| format!("{e:?}"))
+}
+fn sget(cas: &crate::Cas<String>, k: &str) -> Option<Vec<u8>> { cas.get(&k.to_string()).unwrap().map(|b| b.to_vec()) }
+fn fault_child(spec: &str) {
+    unsafe { libc::signal(libc::SIGXFSZ, libc::SIG_IGN); }
+    let (scenario, db) = spec.split_once(':').unwrap();
+    let db = std::path::Path::new(db);
+    let cas = crate::Cas::<String>::open(db, fault_cfg()).unwrap();
+    if scenario == "snapshot0" {
+        // a brand-new store: no snapshot exists yet when the first checkpoint hits the fault
+        sput(&cas, "key_a", b"value of a").unwrap(); sput(&cas, "key_b", b"value of b").unwrap();
+    }
+    assert_eq!(sget(&cas, "key_a").as_deref(), Some(&b"value of a"[..]));
+    sput(&cas, "key_c", b"value of c").unwrap();
+    sput(&cas, "key_d", b"value of d").unwrap();
+    match scenario {
+        "wal" => { // the next write to the active WAL segment fails, nothing else does
+            let len = std::fs::metadata(db.join("0_index.wal")).unwrap().len();
+            let old = set_fsize_soft_limit(len as libc::rlim_t);
+            let r = sput(&cas, "key_e", b"e");
+            set_fsize_soft_limit(old);
+            assert!(r.is_err(), "the injected WAL write error must surface as an error of put(key_e)");
+        }
+        "snapshot" | "snapshot2" | "snapshot0" => { // every write fails while the snapshot is being written
+            if scenario == "snapshot2" { cas.checkpoint().unwrap(); sput(&cas, "key_g", b"value of g").unwrap(); }
+            let old = set_fsize_soft_limit(0);
+            let r = cas.checkpoint();
+            set_fsize_soft_limit(old);
+            assert!(r.is_err(), "the injected snapshot write error must surface as an error of checkpoint()");
+        }
+        "staging" => { // the write of the staged blob fails
+            let old = set_fsize_soft_limit(0);
+            let r = sput(&cas, "key_e", &vec![7u8; 100_000]);
+            set_fsize_soft_limit(old);
+            assert!(r.is_err(), "the injected staging write error must surface as an error of the put");
+            assert_eq!(std::fs::read_dir(db.join("staging")).unwrap().count(), 0, "the failed transaction must leave no staging file");
+        }
+        _ => panic!("unknown scenario"),
+    }
+    // later operations still work and nobody else was harmed (in this session)
+    sput(&cas, "key_f", b"value of f").unwrap();
+    for (k, v) in [("key_a", &b"value of a"[..]), ("key_b", b"value of b"), ("key_c", b"value of c"), ("key_d", b"value of d"), ("key_f", b"value of f")] {
+        assert_eq!(sget(&cas, k).as_deref(), Some(v), "{k} damaged in the session that hit the fault");
+    }
+}
+/// bound: 5 single faults (WAL append after a mid-segment reopen; snapshot write with / without an earlier snapshot / on a brand-new store;
+/// staging write), each followed by further operations and a reopen
+#[test]
+fn bounded_single_io_fault_is_contained() {
+    if let Ok(spec) = std::env::var(FAULT_ENV) { fault_child(&spec); return; }
+    for scenario in ["wal", "snapshot", "snapshot2", "snapshot0", "staging"] {
+        let dir = tempfile::tempdir().unwrap();
+        let db = dir.path();
+        if scenario != "snapshot0" { let cas = crate::Cas::<String>::open(db, fault_cfg()).unwrap(); sput(&cas, "key_a", b"value of a").unwrap(); sput(&cas, "key_b", b"value of b").unwrap(); }
+        let out = std::process::Command::new(std::env::current_exe().unwrap())
+            .args(["verif_bounded::bounded_single_io_fault_is_contained", "--exact", "--nocapture", "--test-threads=1"])
+            .env(FAULT_ENV, format!("{}:{}", scenario, db.display())).output().unwrap();
+        assert!(out.status.success(), "scenario {scenario}: the session that hit one I/O fault misbehaved:\n{}\n{}", String::from_utf8_lossy(&out.stdout), String::from_utf8_lossy(&out.stderr));
+        let cas = crate::Cas::<String>::open(db, fault_cfg()).unwrap_or_else(|e| panic!("scenario {scenario}: reopen failed although only one operation hit an I/O error: {e:?}"));
+        let mut want = vec![("key_a", &b"value of a"[..]), ("key_b", b"value of b"), ("key_c", b"value of c"), ("key_d", b"value of d"), ("key_f", b"value of f")];
+        if scenario == "snapshot2" { want.push(("key_g", b"value of g")); }
+        for (k, v) in want { assert_eq!(sget(&cas, k).as_deref(), Some(v), "scenario {scenario}: {k} lost its content after the reopen although another operation hit the I/O error"); }
+        let e = sget(&cas, "key_e");
+        assert!(e.is_none() || e.as_deref() == Some(&b"e"[..]) || e.as_deref() == Some(&vec![7u8; 100_000][..]), "scenario {scenario}: the key of the failed operation holds neither its old nor its new value");
+        sput(&cas, "key_h", b"after").unwrap(); cas.checkpoint().unwrap();
+    }
+}
+
+/// bound: one store whose only garbage is a staging file left by a crashed transaction
+#[test]
+fn bounded_cleanup_of_staging_leftover_alone() {
+    let dir = tempfile::tempdir().unwrap();
+    { let cas: crate::Cas<String> = crate::Cas::open(dir.path(), cfg()).unwrap(); put(&cas, "live".to_string(), b"live data");
+      let mut t = cas.put("crashed".to_string()).unwrap(); t.write(b"half written").unwrap(); std::mem::forget(t); }
+    let before: Vec<_> = std::fs::read_dir(dir.path().join("staging")).unwrap().flatten().map(|e| e.path()).collect();
+    assert_eq!(before.len(), 1, "the simulated crash leaves one staging file");
+    let _ = std::fs::remove_file(dir.path().join("LOCK"));
+    let c2 = Config { scan_orphans_on_startup: true, ..Config::default() };
+    let (_cas, stats) = crate::Cas::<String>::open_with_recover(dir.path(), c2).unwrap();
+    let stats = stats.unwrap();
+    assert_eq!(stats.staging_files, before, "the scan reports the leftover staging file");
+    let res = stats.delete_orphans().unwrap();
+    assert!(res.errors.is_empty());
+    assert_eq!(std::fs::read_dir(dir.path().join("staging")).unwrap().count(), 0, "clean-up removes the reported staging file even when nothing else is garbage");
+}
+
+/// bound: db_settings.json rewritten with 11 foreign / malformed version values; the build's own version reopens
+#[test]
+fn bounded_settings_version_gate() {
+    let dir = tempfile::tempdir().unwrap();
+    { let cas: crate::Cas<u8> = crate::Cas::open(dir.path(), cfg()).unwrap(); put(&cas, 1, b"x"); }
+    let path = dir.path().join("db_settings.json");
+    let orig = std::fs::read_to_string(&path).unwrap();
+    let v: serde_json::Value = serde_json::from_str(&orig).unwrap();
+    let cur = v["version"].as_u64().expect("settings carry a numeric version");
+    let with = |ver: &str| orig.replacen(&format!("\"version\":{}", cur), &format!("\"version\":{}", ver), 1);
+    assert_ne!(with("99"), orig, "the settings file has the documented `\"version\":N` field");
+    for ver in [format!("{}", cur + 1), format!("{}", cur.wrapping_sub(1)), "0".into(), format!("{}", u32::MAX), format!("{}", (1u64 << 32) + cur), format!("{}", 7 * (1u64 << 32) + cur),
+                format!("{}", u64::MAX), "-1".into(), format!("\"{}\"", cur), format!("{}.5", cur), "null".into()] {
+        std::fs::write(&path, with(&ver)).unwrap();
+        let r = crate::Cas::<u8>::open(dir.path(), cfg());
+        assert!(r.is_err(), "a database whose stored format version is {ver} (build version {cur}) must be rejected");
+        assert_eq!(std::fs::read_to_string(&path).unwrap(), with(&ver), "a rejected open must not rewrite the settings");
+    }
+    std::fs::write(&path, &orig).unwrap();
+    let cas = crate::Cas::<u8>::open(dir.path(), cfg()).expect("the unmodified settings reopen");
+    assert_eq!(&cas.get(&1).unwrap().unwrap()[..], b"x");
+}
+
+/// an independent reader of the documented WAL format: (version, payload) of every record; at most one end marker, at the very end
+fn decode_segment(bytes: &[u8], what: &str) -> Vec<(u64, Vec<u8>)> {
+    let mut out = Vec::new(); let mut off = 0usize; let mut markers = 0;
+    while off < bytes.len() {
+        assert!(off + 44 <= bytes.len(), "{what}: incomplete record header at offset {off} (file length {})", bytes.len());
+        let v = u64::from_le_bytes(bytes[off..off + 8].try_into().unwrap());
+        let n = u32::from_le_bytes(bytes[off + 40..off + 44].try_into().unwrap()) as usize;
+        if bytes[off..off + 44].iter().all(|b| *b == 0) { markers += 1; off += 44; continue; }
+        assert_eq!(markers, 0, "{what}: a record follows an end-of-segment marker");
+        assert!(off + 44 + n <= bytes.len(), "{what}: incomplete record payload at offset {off}");
+        let payload = &bytes[off + 44..off + 44 + n];
+        assert_eq!(&crate::calculate_blob_hash(payload).0[..], &bytes[off + 8..off + 40], "{what}: checksum of record v{v} does not match");
+        out.push((v, payload.to_vec())); off += 44 + n;
+    }
+    assert!(markers <= 1, "{what}: the segment carries {markers} end-of-segment markers, at most one is allowed");
+    out
+}
+/// bound: N=4; a rollover whose new segment cannot be created (a directory sits at its name), two failing puts, the fault
+/// healed, two more puts, a restart; the log is decoded by an independent reader after every phase
+#[test]
+fn bounded_failed_rollover_leaves_well_formed_log() {
+    let dir = tempfile::tempdir().unwrap();
+    let c = Config { num_ops_per_wal: NonZeroU64::new(4).unwrap(), scan_orphans_on_startup: false, ..Config::default() };
+    let check_log = |phase: &str| {
+        let mut last = 0u64;
+        let mut segs: Vec<(u64, std::path::PathBuf)> = std::fs::read_dir(dir.path()).unwrap().flatten().filter_map(|e| { let n = e.file_name().to_string_lossy().to_string(); n.strip_suffix("_index.wal").and_then(|i| i.parse::<u64>().ok()).map(|i| (i, e.path())) }).filter(|(_, p)| p.is_file()).collect();
+        segs.sort();
+        for (id, p) in segs {
+            for (v, _) in decode_segment(&std::fs::read(&p).unwrap(), &format!("{phase}: segment {id}")) {
+                assert!(v > last, "{phase}: versions must increase strictly through the log (v{v} after v{last})"); last = v;
+                assert!(v > id * 4 && v <= (id + 1) * 4, "{phase}: version {v} is outside the range of segment {id}");
+            }
+        }
+    };
+    {
+        let cas: crate::Cas<String> = crate::Cas::open(dir.path(), c.clone()).unwrap();
+        for i in 0..4 { sput(&cas, &format!("k{i}"), format!("v{i}").as_bytes()).unwrap(); }
+        check_log("after four puts");
+        std::fs::create_dir(dir.path().join("1_index.wal")).unwrap();
+        assert!(sput(&cas, "f1", b"x").is_err() && sput(&cas, "f2", b"y").is_err(), "puts must fail while the next segment cannot be created");
+        check_log("after two failed rollovers");
+        std::fs::remove_dir(dir.path().join("1_index.wal")).unwrap();
+        sput(&cas, "k4", b"v4").unwrap(); sput(&cas, "k5", b"v5").unwrap();
+        check_log("after the fault was healed");
+        for i in 0..6 { assert_eq!(sget(&cas, &format!("k{i}")).as_deref(), Some(format!("v{i}").as_bytes())); }
+    }
+    check_log("after a clean shutdown");
+    let cas: crate::Cas<String> = crate::Cas::open(dir.path(), c).expect("reopen after a healed rollover fault");
+    for i in 0..6 { assert_eq!(sget(&cas, &format!("k{i}")).as_deref(), Some(format!("v{i}").as_bytes()), "acknowledged key k{i} after restart"); }
+    check_log("after the restart");
+}
+
+/// bound: one thread, N=2, 60 operations chosen so that overwrites, removes, range removals and checkpoints each fall on
+/// the first and the last op of a segment; watchdog 120 s (every call returns)
+#[test]
+fn bounded_every_call_returns_on_segment_boundaries() {
+    let dir = tempfile::tempdir().unwrap();
+    let path = dir.path().to_path_buf();
+    let (txc, rxc) = std::sync::mpsc::channel();
+    std::thread::spawn(move || {
+        let c = Config { num_ops_per_wal: NonZeroU64::new(2).unwrap(), scan_orphans_on_startup: false, ..Config::default() };
+        let cas: crate::Cas<u8> = crate::Cas::open(&path, c).unwrap();
+        let mut model: BTreeMap<u8, Vec<u8>> = BTreeMap::new();
+        let mut step = 0u32;
+        let mut op = |kind: u32, k: u8, cas: &crate::Cas<u8>, model: &mut BTreeMap<u8, Vec<u8>>| {
+            step += 1;
+            match kind {
+                0 => { let v = format!("value {step} of key {k}").into_bytes(); put(cas, k, &v); model.insert(k, v); }
+                1 => { let v = b"shared content".to_vec(); put(cas, k, &v); model.insert(k, v); }
+                2 => { let was = cas.remove(&k).unwrap(); assert_eq!(was, model.remove(&k).is_some()); }
+                3 => { let n = cas.remove_range(k..=k.saturating_add(2)).unwrap(); let ks: Vec<u8> = model.range(k..=k.saturating_add(2)).map(|(k, _)| *k).collect(); assert_eq!(n, ks.len()); for x in ks { model.remove(&x); } }
+                _ => { cas.checkpoint().unwrap(); }
+            }
+        };
+        // every kind of op as first-of-segment and as last-of-segment, on keys that exist and that do not
+        for round in 0..3u8 {
+            for kind in [0u32, 0, 1, 0, 2, 0, 1, 1, 3, 0, 0, 4, 0, 2, 3, 1, 0, 0, 2, 4] { op(kind, (round + kind as u8 * 3) % 5, &cas, &mut model); }
+        }
+        for (k, v) in &model { assert!(cas.get(k).unwrap().unwrap()[..] == v[..]); }
+        let keys: Vec<u8> = cas.read_index_state().iter().map(|(k, _)| *k).collect();
+        assert_eq!(keys, model.keys().copied().collect::<Vec<_>>());
+        let _ = txc.send(());
+    });
+    rxc.recv_timeout(std::time::Duration::from_secs(120)).expect("an operation of the single-threaded workload never returned (or failed): see the panic above");
 }
